@@ -596,6 +596,37 @@ func runC09_11(c *core.Ctx) {
 			}
 			return true
 		})
+		// relative assignments `cursor = f(cursor, …)`: the only accepted wrap is `% rb.size` over the whole sum
+		// (a mask presumes a power-of-two capacity, which growth beyond 4 KiB and large single writes break)
+		rel := 0
+		ast.Inspect(f.Decl.Body, func(n ast.Node) bool {
+			as, ok := n.(*ast.AssignStmt)
+			if !ok || as.Tok != token.ASSIGN || len(as.Lhs) != len(as.Rhs) {
+				return true
+			}
+			for k, l := range as.Lhs {
+				kind := ringFieldKind(a, f, l)
+				if kind != 1 && kind != 2 {
+					continue
+				}
+				self := false
+				ast.Inspect(as.Rhs[k], func(m ast.Node) bool {
+					if e, ok := m.(ast.Expr); ok && ringFieldKind(a, f, e) == kind {
+						self = true
+					}
+					return true
+				})
+				if !self {
+					continue
+				}
+				rel++
+				be, isRem := ast.Unparen(as.Rhs[k]).(*ast.BinaryExpr)
+				okk := isRem && be.Op == token.REM && flow.FieldOf(f.Info, be.Y) == a.size
+				c.Check(okk, f.Name, "relative cursor assignment #"+itoa(rel)+" wraps modulo size", as.Pos(), "(cursor + k) % rb.size",
+					exprStr(l)+" = "+exprStr(as.Rhs[k])+" advances the cursor without reducing the sum modulo rb.size (a bit mask only works while the capacity is a power of two; the ring grows by a quarter above 4 KiB and to arbitrary sizes on large writes): the cursor lands on a wrong index, Buffered()/Bytes() then describe other bytes than the ones written")
+			}
+			return true
+		})
 		for i, in := range incs {
 			in := in
 			name := "rb.r"
